@@ -313,6 +313,23 @@ class LF:
     def __rtruediv__(self, o):
         return LF.of(o) / self
 
+    def _real_value(self, what):
+        if self.terms:
+            raise NonLinear("%s of an input-dependent value" % what)
+        return self.const._cmp_real()
+
+    def __floordiv__(self, o):
+        return LF(C(core.sym_floordiv(self._real_value("//"), LF.of(o)._real_value("//"))))
+
+    def __rfloordiv__(self, o):
+        return LF.of(o) // self
+
+    def __mod__(self, o):
+        return LF(C(core.sym_mod(self._real_value("%"), LF.of(o)._real_value("%"))))
+
+    def __rmod__(self, o):
+        return LF.of(o) % self
+
     def conjugate(self):
         return LF(self.const.conjugate(), [t.conjugated() for t in self.terms])
 
@@ -1678,6 +1695,10 @@ def _np_max(a, axis=None):
             r = struct_max(a)
             if r is not None:
                 return r.value().item()
+            # value array without a closed form: the abstract maximum (attained at a Skolem index, bounds the first element)
+            probe = a.elem(tuple(z3.IntVal(0) for _ in a.shape))
+            if not probe.terms and z3.is_true(z3.simplify(probe.const.im == 0)):
+                return abstract_max(a)
         raise Unsupported("np.max of an array without a closed form")
     return a
 
